@@ -202,6 +202,8 @@ pub struct Summary {
     /// finding id -> (count, example idx)
     pub known: BTreeMap<String, (u64, u64)>,
     pub violations_total: u64,
+    /// cases on which the machinery itself failed (model/implementation mismatch, harness error): never a verdict
+    pub machinery: Vec<String>,
     /// (idx, message), capped
     pub violations: Vec<(u64, String)>,
     /// message prefix -> (count, smallest idx)
@@ -221,6 +223,11 @@ impl Summary {
             Verdict::Known(id) => {
                 let e = self.known.entry(id.clone()).or_insert((0, idx));
                 e.0 += 1;
+            }
+            Verdict::Violation(m) if m.starts_with("MACHINERY:") => {
+                if self.machinery.len() < 20 {
+                    self.machinery.push(format!("case #{}: {}", idx, m));
+                }
             }
             Verdict::Violation(m) => {
                 self.violations_total += 1;
@@ -256,6 +263,11 @@ impl Summary {
             e.1 = e.1.min(v.1);
         }
         self.violations_total += o.violations_total;
+        for m in &o.machinery {
+            if self.machinery.len() < 20 {
+                self.machinery.push(m.clone());
+            }
+        }
         for v in &o.violations {
             if self.violations.len() < VIOL_CAP {
                 self.violations.push(v.clone());
@@ -273,6 +285,7 @@ impl Summary {
             "traces": self.traces, "classes": self.classes, "skipped": self.skipped,
             "known": self.known.iter().map(|(k,v)| (k.clone(), json!([v.0, v.1]))).collect::<BTreeMap<_,_>>(),
             "violations_total": self.violations_total,
+            "machinery": self.machinery,
             "violations": self.violations.iter().map(|(i,m)| json!([i, m])).collect::<Vec<_>>(),
             "viol_kinds": self.viol_kinds.iter().map(|(k,v)| (k.clone(), json!([v.0, v.1]))).collect::<BTreeMap<_,_>>(),
         })
@@ -293,6 +306,9 @@ impl Summary {
             s.known.insert(k.clone(), (c.get(0)?.as_u64()?, c.get(1)?.as_u64()?));
         }
         s.violations_total = v.get("violations_total")?.as_u64()?;
+        for x in v.get("machinery")?.as_array()? {
+            s.machinery.push(x.as_str()?.to_string());
+        }
         for x in v.get("violations")?.as_array()? {
             s.violations.push((x.get(0)?.as_u64()?, x.get(1)?.as_str()?.to_string()));
         }
@@ -598,6 +614,7 @@ pub fn parent_main(p: &dyn Property, tier: Tier) -> RunResult {
         }
     }
     sum.violations.sort();
+    machinery.extend(sum.machinery.iter().cloned());
     let known = KnownFindings::load();
     let replay_dir = verif_dir().join("replays").join(id);
     let _ = std::fs::create_dir_all(&replay_dir);
